@@ -201,7 +201,10 @@ pub fn judge(run: &FaultRun, o: &mut Outcome) {
     for (t, rs) in recs.iter().enumerate() {
         for (s, r) in rs.iter().enumerate() {
             if let Some(e) = &r.err {
-                if first_fault.map(|f| f > r.end).unwrap_or(true) {
+                // (acceptance is demanded up to the smallest documented maximum only)
+                if payload[t][s] > MUST_ACCEPT {
+                    o.label("refused-above-documented-maximum:append");
+                } else if first_fault.map(|f| f > r.end).unwrap_or(true) {
                     o.fail("error-without-a-failed-system-call", format!("{what}: append of batch {s} of thread {t} failed although no write or sync on the log had failed before it returned: {e}"));
                     return;
                 }
@@ -267,6 +270,7 @@ pub fn judge(run: &FaultRun, o: &mut Outcome) {
     // batches <-> frame groups, as far as both go
     let mut group_of: BTreeMap<(usize, usize), usize> = BTreeMap::new();
     let mut members: Vec<Vec<(usize, usize)>> = vec![];
+    let mut too_large = false;
     {
         let mut k = 0usize;
         'groups: for (gi, g) in groups.iter().enumerate() {
@@ -287,8 +291,7 @@ pub fn judge(run: &FaultRun, o: &mut Outcome) {
                 break 'groups;
             }
             if g.payload > BLOCK {
-                o.fail("conc-merged-batch-too-large", format!("{what}: frame group #{gi} carries {} payload bytes, more than the 1 MiB batch limit", g.payload));
-                return;
+                too_large = true;
             }
             for b in m.iter() {
                 group_of.insert(*b, gi);
@@ -406,6 +409,9 @@ pub fn judge(run: &FaultRun, o: &mut Outcome) {
     if members.iter().any(|m| m.len() >= 2) {
         o.label("merged-write");
     }
+    if too_large {
+        o.label("coalescing:a-frame-group-carries-more-than-1MiB");
+    }
     o.nontrivial = !faults.is_empty() && (failed > 0 || !run.other_errors.is_empty());
 }
 
@@ -479,7 +485,12 @@ fn run_seq(ctx: &Ctx, p: &SeqProg, f: &Faults) -> Outcome {
                 prepared.push(pr);
             }
             Err(e) => {
-                o.fail("batch-entry-refused", format!("a write batch within the limits refused an entry: {e:?}"));
+                let size: usize = es.iter().map(|e| entry_size(e.key.len(), e.ts, e.val.as_ref().map(|v| v.len()))).sum();
+                if size as u64 > MUST_ACCEPT {
+                    o.label("refused-above-documented-maximum:batch(case-skipped)");
+                    return o;
+                }
+                o.fail("batch-entry-refused", format!("a write batch of {size} bytes refused an entry: {e:?}"));
                 return o;
             }
         }
